@@ -2,6 +2,10 @@
 import itertools, random
 import dbggen, dbgcommon
 
+# observations the property does not speak about: a difference in these alone breaks the correspondence
+# but is not an input on which the property fails (reported with no-failing-input-found)
+AUX = ('debugger output differs',)
+
 ASSUMPTIONS = [
     "work is measured as iterations of RunEnvironment::run (tick hook); the implementation's count is compared with the proved BOUND (executed + commands + 1), not with the model's exact count, so a harmless restructuring of the loop cannot raise an alarm",
     "a hard iteration cap turns a livelock into a reported case instead of a hung check",
@@ -66,7 +70,7 @@ def correspondence(ctx, violations, known_hits):
             return f"iterations {f['ticks']} exceed executed {f['execs']} + commands {f['cmds']} + 1"
         return None
 
-    r = dbgcommon.run_dbg_cases(ctx, cases, tags, violations, profiles, extra=bound,
+    r = dbgcommon.run_dbg_cases(ctx, cases, tags, violations, profiles, aux=AUX, extra=bound,
                                 note="model: every iteration executes an instruction or reads a command (C16_no_spin), so iterations <= executed + commands + 1 (C16_progress)")
     ctx.cleanup()
     return dbgcommon.coverage(r,
